@@ -341,7 +341,6 @@ def install_supports_contract(acc):
             return r
     wrapped._pv_wrapped = True
     V.supports = wrapped
-    V.__ge__ = lambda self, other: V.supports(self, other)
     # the relation over the whole grid, both arguments varying
     for a in VERSION_GRID[::3]:
         for b in VERSION_GRID:
